@@ -655,12 +655,17 @@ func (s *Slice) checkWithHardRecovery(node *NodeInfo, downAfterNoAlive int, seco
 
 	// 5. 所有检查通过，设置状态为 UP
 	if conn != nil && node.IsStatusDown() {
-		// 5.1. 检查硬恢复策略是否允许恢复
-		if !strategy.AllowRecovery() {
+		// 5.1. 检查硬恢复策略是否允许恢复 (condition and status change as one step with respect to a fuse)
+		node.recoverMu.Lock()
+		allowed := strategy.AllowRecovery()
+		if allowed {
+			node.SetStatusUp()
+		}
+		node.recoverMu.Unlock()
+		if !allowed {
 			log.Warn("[ns:%s, %s:%s] check slave status with hard strategy, still StatusDown in cooldown period, duration: %v", s.Namespace, s.Cfg.Name, node.Address, time.Since(start))
 			return
 		} else {
-			node.SetStatusUp()
 			log.Warn("[ns:%s, %s:%s] check slave status with hard strategy, Marked as StatusUp success, duration: %v", s.Namespace, s.Cfg.Name, node.Address, time.Since(start))
 		}
 	}
@@ -713,9 +718,14 @@ func (s *Slice) checkWithGradualRecovery(node *NodeInfo, downAfterNoAlive int, s
 	if conn != nil && node.IsStatusDown() {
 		// 5.1. 检查惩罚恢复策略是否允许恢复
 		// UP -> DOWN 记录一次误恢复
-		if strategy.AllowRecovery() {
+		node.recoverMu.Lock()
+		allowed := strategy.AllowRecovery()
+		if allowed {
 			strategy.UpdateLastRecoveryTime()
 			node.SetStatusUp()
+		}
+		node.recoverMu.Unlock()
+		if allowed {
 			log.Warn("[ns:%s, %s:%s] check slave status with gradual strategy, Marked as StatusUp success, from bad recovery: %d, duration: %v", s.Namespace, s.Cfg.Name, node.Address, strategy.errorRecoveryCount.Get(), time.Since(start))
 		} else {
 			log.Warn("[ns:%s, %s:%s] check slave status with gradual strategy, still StatusDown in cooldown period, remain skip: %d, duration: %v", s.Namespace, s.Cfg.Name, node.Address, strategy.consecutiveSuccessCheckCount.Get(), time.Since(start))
@@ -883,6 +893,8 @@ func (s *Slice) TryFuse(node *NodeInfo, err error) {
 	if !node.FuseStrategy.Trigger(now.Unix()) {
 		return
 	}
+	node.recoverMu.Lock()
+	defer node.recoverMu.Unlock()
 	// record the fuse time before the node becomes visible as DOWN: a health check that
 	// runs in between must already see the cool-down it has to respect
 	if hard, ok := node.RecoveryStrategy.(*HardCoolDownStrategy); ok {
